@@ -124,6 +124,12 @@ Proof. vm_compute. reflexivity. Qed.
 Theorem C04_grow_keeps_batch_order : GenPublish.gen_grow_shape = Sched.grow_shape_model.
 Proof. exact BridgePublish.bridge_grow_shape. Qed.
 
+(* the description a reap works from is read from the settings file at that moment (load_info keeps no copy
+   on the Crop object), so a re-sow through the same object is seen by the next reap *)
+Theorem C04_description_read_at_reap : gen_info_read_from_disk_each_time = true.
+Proof. exact bridge_info_from_disk. Qed.
+
+Print Assumptions C04_description_read_at_reap.
 Print Assumptions C04_grow_keeps_batch_order.
 Print Assumptions C04_roundtrip.
 Print Assumptions C04_shuffle_irrelevant.
